@@ -101,6 +101,39 @@ def pop_item(f):
     return out if out else None
 
 
+def weight_fields(lib):
+    """names under which the weight component of a work item is read: `.1` of the (node, reach) tuple, or the f64
+    field of a private two-field struct of the module that took the tuple's place"""
+    out = {'1'}
+    for name, adt in lib.adts.items():
+        if name.startswith('regret::') and len(adt) == 1:
+            fs, tys = adt[0].get('fields', []), adt[0].get('ftys', [])
+            if len(fs) == 2 and sorted(ty == 'f64' for ty in tys) == [False, True] and any('Node' in ty for ty in tys):
+                out.add(fs[tys.index('f64')])
+    return out
+
+
+def item_parts(lib, item):
+    """(node expression, weight expression) of a pushed work item: a pair, or a two-field struct with one f64"""
+    item = strip_refs(item)
+    if item[0] != 'agg' or len(item[2]) != 2:
+        return None
+    if item[1] == 'tuple':
+        return item[2][0], item[2][1]
+    if item[1].startswith('adt:'):
+        path = item[1][4:].rsplit('::', 1)[0]
+        adt = lib.adts.get(path)
+        if adt and len(adt) == 1:
+            tys = adt[0].get('ftys', [])
+            if len(tys) == 2 and sorted(ty == 'f64' for ty in tys) == [False, True]:
+                i = tys.index('f64')
+                return item[2][1 - i], item[2][i]
+    return None
+
+
+WEIGHT_FIELDS = {'1'}
+
+
 def classify_weight(f, w, popped):
     """describe a pushed weight: set of factor kinds"""
     p = e4.try_poly(w)
@@ -113,7 +146,7 @@ def classify_weight(f, w, popped):
             kinds.append('?')
             continue
         x = a[1]
-        if q.find_sub(x, lambda s: same_call(s, popped)) is not None and strip_refs(x)[0] == 'field' and strip_refs(x)[2] == '1':
+        if q.find_sub(x, lambda s: same_call(s, popped)) is not None and strip_refs(x)[0] == 'field' and strip_refs(x)[2] in WEIGHT_FIELDS:
             kinds.append('reach')
         else:
             c = q.elem_of(x)
@@ -127,6 +160,8 @@ def classify_weight(f, w, popped):
 
 def run(ctx):
     lib = ctx.lib
+    WEIGHT_FIELDS.clear()
+    WEIGHT_FIELDS.update(weight_fields(lib))
     divisions.run(ctx, 'C01')
     # ---------------- (1) accessors
     rule = 'C01.accessors'
@@ -140,15 +175,44 @@ def run(ctx):
                 (mono, c), = p.items()
                 d[pl[-1]['variants'][0]] = c if len(mono) == 1 and mono[0][0] == 'val' and mono[0][1][0] == 'field' and mono[0][1][2] == 'util' else None
         ctx.verdict(d == {'One': 1.0, 'Two': -1.0}, rule, rule + ':player_utility', 'player one\'s utility is +util and player two\'s is its negation', f.where(0), 'coefficients: %s' % d, breaks='player two\'s reported utility has the wrong sign')
+    util_field = 'util'
+    pu = ctx.fn('lib', 'StrategiesInfo::player_utility', rule)
+    if pu is not None:
+        fl = {x[2] for _, _, v in q.multi_def_values(pu, 0) for x in facts.walk(v) if x[0] == 'field' and strip_refs(x[1])[0] == 'param'}
+        if len(fl) == 1:
+            util_field = next(iter(fl))
+    regret_slots = None      # how the two regrets are stored: ('array', field) or ('fields', {names})
     f = ctx.fn('lib', 'StrategiesInfo::regret', rule)
     if f is not None:
         r = strip_refs(q.ret_expr(f))
-        ok = q.is_call(r, 'max') and 'f64' in r[1] and {tuple(sorted(q.tags(a))) for a in r[2]} == {(0,), (1,)} and all('regrets' in facts.show(a) for a in r[2])
+        ok = q.is_call(r, 'max') and 'f64' in r[1] and len(r[2]) == 2
+        if ok:
+            args = [strip_refs(a) for a in r[2]]
+            if {tuple(sorted(q.tags(a))) for a in args} == {(0,), (1,)} and all(a[0] == 'cidx' and strip_refs(a[1])[0] == 'field' for a in args) and len({strip_refs(a[1])[2] for a in args}) == 1:
+                regret_slots = ('array', strip_refs(args[0][1])[2])
+            elif all(a[0] == 'field' and strip_refs(a[1])[0] == 'param' for a in args) and len({a[2] for a in args}) == 2 and util_field not in {a[2] for a in args}:
+                regret_slots = ('fields', {a[2] for a in args})
+            ok = regret_slots is not None
         ctx.verdict(ok, rule, rule + ':regret-is-max', 'the total regret is f64::max of the two players\' regrets', f.where(0), 'returns %s' % facts.show(r)[:70], breaks='the total regret is not the larger of the two')
     f = ctx.fn('lib', 'StrategiesInfo::player_regret', rule)
     if f is not None:
         r = strip_refs(q.ret_expr(f))
-        ctx.verdict(q.is_call(r, 'ind') and strip_refs(r[2][0])[0] == 'param' and 'regrets' in facts.show(r[2][1]), rule, rule + ':player_regret', 'a player\'s regret is selected by that player\'s number', f.where(0), 'returns %s' % facts.show(r)[:60])
+        if q.is_call(r, 'ind'):
+            ctx.verdict(strip_refs(r[2][0])[0] == 'param' and regret_slots is not None and regret_slots[0] == 'array' and q.find_sub(r[2][1], lambda x: x[0] == 'field' and x[2] == regret_slots[1]) is not None, rule, rule + ':player_regret',
+                        'a player\'s regret is selected by that player\'s number', f.where(0), 'returns %s' % facts.show(r)[:60])
+        else:
+            # one stored value per player, selected by a match on the player number
+            sel = {}
+            for bi, cs, v in q.multi_def_values(f, 0):
+                pl = [c for c in cs if c['kind'] == 'variant' and len(c['variants']) == 1 and c['variants'][0] in ('One', 'Two')]
+                v = strip_refs(v)
+                if pl and v[0] == 'field' and strip_refs(v[1])[0] == 'param':
+                    sel[pl[-1]['variants'][0]] = v[2]
+            if regret_slots is not None and regret_slots[0] == 'fields' and set(sel) == {'One', 'Two'} and set(sel.values()) == regret_slots[1]:
+                ctx.ok(rule, rule + ':player_regret', 'a player\'s regret is selected by that player\'s number', f.where(0), 'One -> .%s, Two -> .%s (the two stored regrets, one each)' % (sel['One'], sel['Two']))
+                ctx.anchor_lost(rule, 'StrategiesInfo: which stored regret belongs to which player', 'per-player fields instead of the pair: the field <-> player correspondence through regret() is not followed')
+            else:
+                ctx.anchor_lost(rule, 'StrategiesInfo::player_regret: selection by player number', 'returns %s' % facts.show(r)[:60])
 
     # ---------------- (2) regret(): forms and sign agreement
     rule = 'C01.regret-form'
@@ -156,15 +220,24 @@ def run(ctx):
     sign_in_slot = {}
     if f is not None:
         r = strip_refs(q.ret_expr(f))
-        ok = r[0] == 'agg' and r[1] == 'tuple' and len(r[2]) == 2
-        arr = strip_refs(r[2][1]) if ok else None
-        exp_call = strip_refs(r[2][0]) if ok else None
-        ctx.verdict(ok and q.is_call(exp_call, 'expected'), rule, rule + ':utility-is-expected', 'the reported utility is the value of expected()', f.where(0), 'first component %s' % (facts.show(exp_call)[:40] if exp_call else '?'))
-        if ok and arr[0] == 'agg' and arr[1] == 'array' and len(arr[2]) == 2:
-            for k, el in enumerate(arr[2]):
+        comps = [strip_refs(x) for x in r[2]] if r[0] == 'agg' and (r[1] == 'tuple' or r[1].startswith('adt:')) else []
+        exp_calls = [x for x in comps if q.is_call(x, 'expected')]
+        exp_call = exp_calls[0] if len(exp_calls) == 1 else None
+        ctx.verdict(exp_call is not None, rule, rule + ':utility-is-expected', 'the reported utility is the value of expected()', f.where(0), 'components %s' % [facts.show(x)[:30] for x in comps])
+        arrs = [x for x in comps if x[0] == 'agg' and x[1] == 'array' and len(x[2]) == 2]
+        if exp_call is not None and len(comps) == 2 and len(arrs) == 1:
+            slots = list(enumerate(arrs[0][2]))          # the pair: position k is player k+1
+        elif exp_call is not None and len(comps) == 3:
+            slots = [(None, x) for x in comps if x is not exp_call]     # one scalar per player: told apart by content
+        else:
+            slots = None
+        if slots is not None:
+            seen_inst = set()
+            for k0, el in slots:
                 p = e4.try_poly(el)
                 good = False
                 detail = e4.show_poly(p)
+                k = k0
                 if p is not None and len(p) == 1 and list(p.values()) == [1.0] and len(list(p)[0]) == 1 and list(p)[0][0][0] == 'PosPart':
                     inner = dict(list(p)[0][0][1])
                     br = [(m, c) for m, c in inner.items() if any(a[0] == 'val' and q.is_call(a[1], 'optimal_deviations') for a in m)]
@@ -176,16 +249,22 @@ def run(ctx):
                         t = f.blocks[site[1]]['term']
                         cargs = [a for a in t['callee'].get('args', []) if a in ('true', 'false')]
                         inst = cargs[0] if cargs else '?'
-                        sign_in_slot[k] = (inst, ex[0][1])
-                        want_inst = 'true' if k == 0 else 'false'
-                        tags_ok = q.tags(brc[2][2]) == {k} and q.tags(brc[2][3]) == {1 - k}
-                        good = inst == want_inst and tags_ok and ex[0][1] == (-1.0 if k == 0 else 1.0)
-                        detail = 'slot %d = PosPart(optimal_deviations::<%s>(player_info%s, strat_info%s) %+g*expected)' % (k, inst, sorted(q.tags(brc[2][2])), sorted(q.tags(brc[2][3])), ex[0][1])
+                        if k is None and inst in ('true', 'false') and inst not in seen_inst:
+                            k = 0 if inst == 'true' else 1
+                        seen_inst.add(inst)
+                        if k is not None:
+                            sign_in_slot[k] = (inst, ex[0][1])
+                            want_inst = 'true' if k == 0 else 'false'
+                            tags_ok = q.tags(brc[2][2]) == {k} and q.tags(brc[2][3]) == {1 - k}
+                            good = inst == want_inst and tags_ok and ex[0][1] == (-1.0 if k == 0 else 1.0)
+                            detail = 'slot %d = PosPart(optimal_deviations::<%s>(player_info%s, strat_info%s) %+g*expected)' % (k, inst, sorted(q.tags(brc[2][2])), sorted(q.tags(brc[2][3])), ex[0][1])
+                if k is None:
+                    k = len(sign_in_slot) if len(sign_in_slot) < 2 else 1
                 ctx.verdict(good, rule, '%s:slot-%d' % (rule, k),
                             'regret of player %d is max(best response value of that player (own infoset table, *other* player\'s strategy) %s expected, 0)' % (k + 1, '-' if k == 0 else '+'), f.where(0), detail,
                             breaks='a player\'s regret is computed against the wrong strategy / with the wrong sign, or can be negative')
         else:
-            ctx.bad(rule, rule + ':slots', 'regret() returns (expected, [r1, r2])', f.where(0), 'shape not recognised')
+            ctx.anchor_lost(rule, 'regret(): result of the form (expected, [r1, r2])', 'components %s' % [facts.show(x)[:30] for x in comps])
     # terminal signs in the searches
     rule = 'C01.sign-consistency'
     g = ctx.fn('lib', 'regret::next_infoset_search', rule)
@@ -239,12 +318,12 @@ def run(ctx):
         has_role = nm != 'expected'
         sites = []      # (block, weight kinds, probability source, positivity guard or None)
         for bi, t, e in q.calls_named(f, 'push'):
-            item = strip_refs(e[2][1])
-            if item[0] != 'agg' or item[1] != 'tuple' or len(item[2]) != 2:
+            parts = item_parts(lib, e[2][1])
+            if parts is None:
                 continue
-            kinds, probsrc = classify_weight(f, item[2][1], popped)
+            kinds, probsrc = classify_weight(f, parts[1], popped)
             pr = None
-            pw = e4.try_poly(item[2][1])
+            pw = e4.try_poly(parts[1])
             for a in (list(pw)[0] if pw else ()):
                 if a[0] == 'val' and q.elem_of(a[1]) is not None:
                     pr = a[1]
@@ -259,19 +338,19 @@ def run(ctx):
             cf, _ = q.closure_of(lib, mp[2][1])
             if cf is None:
                 continue
-            r = strip_refs(q.ret_expr(cf))
-            if r[0] != 'agg' or r[1] != 'tuple' or len(r[2]) != 2:
+            parts = item_parts(lib, q.ret_expr(cf))
+            if parts is None:
                 continue
             ctx.touch(cf)
             ip = q.item_param(cf)
-            w = q.resolve_captures(lib, cf, r[2][1]) if cf.is_closure else r[2][1]
+            w = q.resolve_captures(lib, cf, parts[1]) if cf.is_closure else parts[1]
             pw = e4.try_poly(w)
             kinds, probsrc = None, None
             if pw is not None and len(pw) == 1 and list(pw.values()) == [1.0]:
                 kinds = []
                 for a in list(pw)[0]:
                     x = a[1] if a[0] == 'val' else None
-                    if x is not None and q.find_sub(x, lambda s_: same_call(s_, popped)) is not None and strip_refs(x)[0] == 'field' and strip_refs(x)[2] == '1':
+                    if x is not None and q.find_sub(x, lambda s_: same_call(s_, popped)) is not None and strip_refs(x)[0] == 'field' and strip_refs(x)[2] in WEIGHT_FIELDS:
                         kinds.append('reach')
                     elif x is not None and q.find_sub(x, lambda s_: s_[0] == 'param' and s_[1] == ip) is not None:
                         kinds.append('prob')
@@ -330,8 +409,8 @@ def run(ctx):
         for bi, t, e in reg:
             cxs = f.contexts(bi, role_ctx)
             roles = roles_of(cxs)
-            item = strip_refs(e[2][1])
-            kinds, _ = classify_weight(f, item[2][1], pop_item(f)) if item[0] == 'agg' else (None, None)
+            parts = item_parts(lib, e[2][1])
+            kinds, _ = classify_weight(f, parts[1], pop_item(f)) if parts is not None else (None, None)
             own = q.find_sub(e[2][0], lambda s: s[0] == 'index' and strip_refs(s[2])[0] == 'field' and strip_refs(s[2])[2] == 'infoset') is not None
             ctx.verdict(roles == {True} and kinds == ['reach'] and own, rule, rule + ':registration', 'a node is registered with its reach at its own infoset exactly when it belongs to the deviating player ((One, true) | (Two, false))',
                         f.where(bi), 'roles %s, weight %s, own infoset %s' % (roles, kinds, own), breaks='the best response is computed over the opponent\'s infosets')
@@ -363,6 +442,15 @@ def run(ctx):
             x = num[2][0] if q.is_call(num, 'unwrap') else num
             x = strip_refs(x)
             red = q.is_call(x, 'reduce') and x[2][1][0] == 'fn' and short(x[2][1][1]) == 'max' and 'f64' in x[2][1][1]
+            if not red and q.is_call(x, 'fold') and len(x[2]) == 3 and x[2][2][0] == 'fn' and short(x[2][2][1]) == 'max' and 'f64' in x[2][2][1]:
+                # reduce spelled out: fold(first element of the same iterator | -inf, f64::max)
+                init = strip_refs(x[2][1])
+                if init[0] == 'var':
+                    vals = [strip_refs(v) for _, _, v in q.multi_def_values(f, init[1])]
+                    init = vals[0] if len(vals) == 1 else init
+                if q.is_call(init, 'unwrap') or q.is_call(init, 'expect'):
+                    init = strip_refs(init[2][0])
+                red = (q.is_call(init, 'next') and norm(strip_refs(init[2][0])) == norm(strip_refs(x[2][0]))) or (init[0] == 'const' and 'NEG_INFINITY' in str(init))
             den = strip_refs(dv['den'])
             tot = q.is_call(den, 'sum')
             ok = bool(red and tot)
@@ -450,6 +538,23 @@ def run(ctx):
             ctx.verdict(root_ok, rule, rule + ':root-and-chance', 'evaluation starts at the game\'s root with the game\'s chance table', host.where(bi), 'found: %s' % root_ok)
         # StrategiesInfo fields
         for bi, st, fields in q.struct_sites(f, 'StrategiesInfo'):
-            u, r = strip_refs(fields.get('util', ('other',))), strip_refs(fields.get('regrets', ('other',)))
-            ok = u[0] == 'field' and u[2] == '0' and r[0] == 'field' and r[2] == '1' and strip_refs(u[1]) == strip_refs(r[1])
-            ctx.verdict(ok, rule, rule + ':info-fields', 'StrategiesInfo { util, regrets } are components 0 and 1 of regret()\'s result', f.where(bi), 'found: %s' % ok)
+            vals = {k_: strip_refs(v) for k_, v in fields.items()}
+            srcs = set()
+            comp = {}
+            for k_, v in vals.items():
+                base = v
+                path = []
+                while base[0] in ('field', 'cidx'):
+                    path.append(base[2])
+                    base = strip_refs(base[1])
+                srcs.add(base if q.is_call(base, 'regret') and base[1].startswith('regret::') else ('other', k_))
+                comp[k_] = tuple(reversed(path))
+            from_one_call = len(srcs) == 1 and next(iter(srcs))[0] == 'call'
+            if set(vals) == {'util', 'regrets'}:
+                ok = from_one_call and comp['util'] == ('0',) and comp['regrets'] == ('1',)
+                ctx.verdict(ok, rule, rule + ':info-fields', 'StrategiesInfo { util, regrets } are components 0 and 1 of regret()\'s result', f.where(bi), 'components: %s' % comp)
+            elif from_one_call and len(set(comp.values())) == len(comp):
+                ctx.ok(rule, rule + ':info-fields', 'every field of StrategiesInfo is a distinct component of the one regret() evaluation', f.where(bi), 'components: %s' % comp)
+                ctx.anchor_lost(rule, 'get_info: which component of regret() feeds which field', 'reshaped result types: the correspondence is not followed (%s)' % comp)
+            else:
+                ctx.verdict(False, rule, rule + ':info-fields', 'every field of StrategiesInfo is a distinct component of the one regret() evaluation', f.where(bi), 'components: %s, sources: %d' % (comp, len(srcs)))
